@@ -9,6 +9,7 @@ import (
 	"testing"
 
 	"github.com/syndtr/goleveldb/leveldb"
+	"github.com/syndtr/goleveldb/leveldb/iterator"
 	"github.com/syndtr/goleveldb/leveldb/journal"
 	"github.com/syndtr/goleveldb/leveldb/storage"
 	"pgregory.net/rapid"
@@ -26,9 +27,14 @@ type RCase struct {
 	Damage   []int     `json:"damage,omitempty"` // indices (mod count) into the list of all data blocks; empty = no block damage
 	DmgOff   []int     `json:"dmgoff,omitempty"` // byte offset inside the block (mod length)
 	After    []dbm.Op  `json:"after,omitempty"`
+	// LateRelease: an iterator opened a few steps before the end of the history stays
+	// open until the shutdown and is released immediately before Close, so that the
+	// obsolete tables it pinned are being removed while the DB closes.
+	LateRelease bool `json:"laterelease,omitempty"`
 }
 
 type rStats struct {
+	lateRelease                  bool
 	levels, tables, blocks       int
 	overwritten, deleted, inJrnl bool
 	damagedNewest, damagedOlder  bool
@@ -70,10 +76,38 @@ func runRecover(c *RCase) (st rStats, err error) {
 	if err := e.Open(); err != nil {
 		return st, err
 	}
+	late := -1
+	if c.LateRelease {
+		late = len(base.Ops) - 12
+		if late < 0 {
+			late = 0
+		}
+		for j := range base.Ops {
+			if t := base.Ops[j].T; (t == "reopen" || t == "recover") && j >= late {
+				late = j + 1 // the DB handle changes there
+			}
+		}
+	}
+	var lateIt iterator.Iterator
 	for i := range base.Ops {
+		if i == late {
+			lateIt = e.DB.NewIterator(nil, nil)
+			lateIt.First()
+		}
 		if err := e.Step(i, &base.Ops[i]); err != nil {
+			if lateIt != nil {
+				lateIt.Release()
+			}
 			return st, err
 		}
+	}
+	if lateIt != nil {
+		st.lateRelease = true
+		defer func() {
+			if lateIt != nil {
+				lateIt.Release()
+			}
+		}()
 	}
 	if err := e.ReleaseHandles(); err != nil {
 		return st, err
@@ -91,10 +125,17 @@ func runRecover(c *RCase) (st rStats, err error) {
 	filesBefore := fmt.Sprint(e.FS.Files())
 	refsBefore := fmt.Sprint(e.DB.VerifFileRefs())
 	// the premise of the property is a clean, settled shutdown: nothing but live files in storage
-	if err := e.CheckFileSet("settled state before shutdown"); err != nil {
-		return st, fmt.Errorf("%v (live tables:%s; files: %s; table references: %s)", err, liveBefore, filesBefore, refsBefore)
+	// (with a late iterator the tables of its version are legitimately still there)
+	if lateIt == nil {
+		if err := e.CheckFileSet("settled state before shutdown"); err != nil {
+			return st, fmt.Errorf("%v (live tables:%s; files: %s; table references: %s)", err, liveBefore, filesBefore, refsBefore)
+		}
 	}
 	st.levels = len(levels)
+	if lateIt != nil {
+		lateIt.Release()
+		lateIt = nil
+	}
 	if err := e.Close(); err != nil {
 		return st, err
 	}
@@ -322,9 +363,10 @@ func runRecover(c *RCase) (st rStats, err error) {
 }
 
 func drawRCase(t *rapid.T) *RCase {
-	p := &dbm.Profile{Prop: "C19", MinOps: 10, MaxOps: 220, DetPercent: 60,
-		W: map[string]int{"put": 36, "del": 10, "batch": 8, "bigbatch": 1, "compact": 3, "reopen": 1, "idle": 3, "snap": 2, "snaprel": 1, "get": 2}}
+	p := &dbm.Profile{Prop: "C19", MinOps: 10, MaxOps: 220, DetPercent: 60, SlowRemovePercent: 30,
+		W: map[string]int{"put": 36, "del": 10, "batch": 8, "bigbatch": 1, "compact": 3, "reopen": 1, "idle": 3, "snap": 2, "snaprel": 1, "get": 2, "churn": 1}}
 	c := &RCase{Base: dbm.Draw(t, p)}
+	c.LateRelease = rapid.IntRange(0, 2).Draw(t, "laterelease") == 0
 	c.Manifest = rapid.SampledFrom([]string{"remove", "truncate", "garbage", "nometa"}).Draw(t, "manifest")
 	c.TruncAt = rapid.IntRange(0, 1<<16).Draw(t, "truncat")
 	if rapid.IntRange(0, 9).Draw(t, "dmg") >= 6 {
@@ -378,6 +420,7 @@ func TestC19(t *testing.T) {
 		add(st.overwritten, "overwritten-version-physically-present")
 		add(st.deleted, "tombstone-physically-present")
 		add(st.inJrnl, "data-in-journal")
+		add(st.lateRelease, "iterator-released-right-before-close")
 		add(len(c.Damage) > 0, "block-damage")
 		add(st.damagedNewest, "damage-hit-newest-version")
 		add(st.damagedOlder, "damage-hit-older-version")
